@@ -131,6 +131,22 @@ def run_shard(task, base_seed):
                 state["last"] = (case, unknown[0])
                 raise _Violation(unknown[0].site)
 
+        # regression tier: committed inputs of repaired defects and of earlier surprises (replays/regression/
+        # <property>-<clause>-*.json) are replayed first, in every tier, by the first shard of their clause; a "fixed"
+        # entry suppresses nothing, so a defect that returns is a VIOLATION like any other
+        if shard == 0 and cl.machine is None:
+            import glob as _glob
+            for fn in sorted(_glob.glob(os.path.join(VERIF, "replays", "regression", f"{pid}-{cname}-*.json"))):
+                doc = replay.read_replay(fn)
+                res["labels"]["regression_replay"] += 1
+                try:
+                    body(doc["case"])
+                except _Violation:
+                    case_, f = state["last"]
+                    key = f.key()
+                    if not any(v["key"] == key for v in res["violations"]):
+                        res["violations"].append({"key": key, "case": replay.encode(case_), "failure": f.as_dict()})
+
         if per < 0:   # stateful machine
             import hypothesis
             from hypothesis import HealthCheck, Phase, settings
